@@ -14,6 +14,7 @@ import (
 	"context"
 	"fmt"
 	"os"
+	"path"
 	"sort"
 	"strconv"
 	"strings"
@@ -45,9 +46,21 @@ type XJump struct {
 	GapMs   int `json:"gap_ms"`
 }
 
+// XLose: dc-X loses its allocator leader. Kind dead: handed over to a member id that does not exist (the
+// next-leader key blocks every campaign until Restore deletes it); move: handed over to another live member;
+// resign: the holder just resigns. Gather: before that, the PD leader is made allocator leader of every dc-location.
+type XLose struct {
+	DC     int    `json:"dc"`
+	Kind   string `json:"kind"`
+	Gather bool   `json:"gather,omitempty"`
+}
+
 type XStep struct {
 	Par  []XReq `json:"par,omitempty"`
 	Jump *XJump `json:"jump,omitempty"`
+	Lose *XLose `json:"lose,omitempty"`
+	// Restore: pending hand-overs are unblocked (next-leader keys deleted) and every dc-location has a leader again
+	Restore bool `json:"restore,omitempty"`
 }
 
 type XCase struct {
@@ -145,6 +158,41 @@ func genCross(t *rapid.T) XCase {
 		at := rapid.IntRange(0, len(c.Steps)).Draw(t, "jat")
 		c.Steps = append(c.Steps[:at], append(pat, c.Steps[at:]...)...)
 	}
+	// dc-X (ahead by d, local timestamps issued) loses its allocator leader; 1-3 global requests while it has none
+	// (or a moving one); restore; local requests of dc-X and a global one
+	if ndc >= 2 && len(c.PDs) >= 2 {
+		nlose := 1
+		if thorough {
+			nlose = rapid.IntRange(2, 4).Draw(t, "nlose")
+		}
+		for j := 0; j < nlose; j++ {
+			l := XLose{DC: rapid.IntRange(0, ndc-1).Draw(t, "ldc"), Kind: "dead", Gather: true}
+			d := 2500
+			if j > 0 {
+				l.Kind = rapid.SampledFrom([]string{"dead", "dead", "move", "resign"}).Draw(t, "lkind")
+				l.Gather = rapid.Bool().Draw(t, "lgather")
+				d = rapid.SampledFrom([]int{300, 1500, 2500, 10000}).Draw(t, "lahead")
+			}
+			pat := []XStep{}
+			if l.Gather {
+				// gathering first, so that the timestamps of dc-X are issued by the member that loses it
+				pat = append(pat, XStep{Lose: &XLose{DC: l.DC, Kind: "gather", Gather: true}})
+			}
+			pat = append(pat, XStep{Jump: &XJump{DC: l.DC, AheadMs: d}},
+				XStep{Par: []XReq{{DC: l.DC, N: uint32(rapid.IntRange(1, 3).Draw(t, "ln"))}}},
+				XStep{Lose: &XLose{DC: l.DC, Kind: l.Kind}})
+			for k, ng := 0, rapid.IntRange(1, 3).Draw(t, "lglobals"); k < ng; k++ {
+				pat = append(pat, XStep{Par: []XReq{{DC: -1, N: uint32(rapid.SampledFrom([]int{1, 1, 5}).Draw(t, "lgn"))}}})
+				if rapid.Bool().Draw(t, "llocal") {
+					pat = append(pat, XStep{Par: []XReq{{DC: rapid.IntRange(0, ndc-1).Draw(t, "lldc"), N: 1}}})
+				}
+			}
+			pat = append(pat, XStep{Restore: true}, XStep{Par: []XReq{{DC: l.DC, N: 1}}}, XStep{Par: []XReq{{DC: -1, N: 1}}},
+				XStep{Par: []XReq{{DC: l.DC, N: 2}}})
+			at := rapid.IntRange(0, len(c.Steps)).Draw(t, "lat")
+			c.Steps = append(c.Steps[:at], append(pat, c.Steps[at:]...)...)
+		}
+	}
 	if thorough && len(c.PDs) >= 2 && rapid.Bool().Draw(t, "resign") {
 		c.ResignAt = rapid.IntRange(nsteps/4, 3*nsteps/4).Draw(t, "resign_at")
 	}
@@ -224,6 +272,8 @@ func getCluster(pds []int) *xcluster {
 	ctx, cancel := context.WithCancel(context.Background())
 	var cl *tests.TestCluster
 	var err error
+	// the hand-overs of local allocators are driven by the program, not by the periodic priority check
+	tso.PriorityCheck = 30 * time.Minute
 	ok := within(90*time.Second, func() {
 		cl, err = tests.NewTestCluster(ctx, len(pds), func(conf *config.Config, name string) {
 			i, _ := strconv.Atoi(strings.TrimPrefix(name, "pd"))
@@ -323,6 +373,109 @@ func (x *xcluster) target(dc string) string {
 		return ""
 	}
 	return x.cluster.GetServer(name).GetAddr()
+}
+
+func (x *xcluster) holder(dc string) string {
+	return x.cluster.WaitAllocatorLeader(dc, tests.WithRetryTimes(1), tests.WithWaitInterval(time.Millisecond))
+}
+
+// handOver moves the local allocator of dc to the member target the way the priority checker does: write the
+// next-leader key, then the current holder resigns. wait: until target leads.
+func (x *xcluster) handOver(dc, target string, wait bool) bool {
+	h := x.holder(dc)
+	if h == "" || x.cluster.GetServer(target) == nil {
+		return false
+	}
+	if h == target {
+		return true
+	}
+	am := x.cluster.GetServer(h).GetTSOAllocatorManager()
+	if am.TransferAllocatorForDCLocation(dc, x.cluster.GetServer(target).GetServerID()) != nil {
+		return false
+	}
+	am.ResetAllocatorGroup(dc)
+	if !wait {
+		return true
+	}
+	for deadline := time.Now().Add(15 * time.Second); time.Now().Before(deadline); time.Sleep(30 * time.Millisecond) {
+		if x.holder(dc) == target {
+			return true
+		}
+	}
+	return false
+}
+
+// lose: see XLose. Returns whether the step did what it says.
+func (x *xcluster) lose(dcs []string, l *XLose) bool {
+	dc := dcs[l.DC%len(dcs)]
+	leader := x.cluster.GetLeader()
+	if leader == "" {
+		return false
+	}
+	switch l.Kind {
+	case "gather":
+		ok := true
+		for _, d := range dcs {
+			ok = x.handOver(d, leader, true) && ok
+		}
+		return ok
+	case "move":
+		h := x.holder(dc)
+		var names []string
+		for name := range x.cluster.GetServers() {
+			if name != h {
+				names = append(names, name)
+			}
+		}
+		sort.Strings(names)
+		return h != "" && len(names) > 0 && x.handOver(dc, names[l.DC%len(names)], false)
+	case "resign":
+		h := x.holder(dc)
+		if h == "" {
+			return false
+		}
+		x.cluster.GetServer(h).GetTSOAllocatorManager().ResetAllocatorGroup(dc)
+		return true
+	default: // dead
+		h := x.holder(dc)
+		if h == "" {
+			return false
+		}
+		am := x.cluster.GetServer(h).GetTSOAllocatorManager()
+		if am.TransferAllocatorForDCLocation(dc, 1234567) != nil {
+			return false
+		}
+		am.ResetAllocatorGroup(dc)
+		for deadline := time.Now().Add(5 * time.Second); time.Now().Before(deadline); time.Sleep(20 * time.Millisecond) {
+			none := true
+			for _, s := range x.cluster.GetServers() {
+				none = none && !s.IsAllocatorLeader(dc)
+			}
+			if none {
+				return true
+			}
+		}
+		return false
+	}
+}
+
+// restore deletes every next-leader key that names a member which does not exist and waits for all leaders.
+func (x *xcluster) restore(dcs []string, pds []int) bool {
+	leader := x.cluster.GetLeader()
+	if leader == "" {
+		return x.waitLeaders(pds, 30*time.Second)
+	}
+	ls := x.cluster.GetServer(leader)
+	root := path.Join("/pd", strconv.FormatUint(x.cid, 10))
+	for _, dc := range dcs {
+		ctx, cancel := context.WithTimeout(context.Background(), 5*time.Second)
+		key := path.Join(root, dc, "next-leader")
+		if resp, err := ls.GetEtcdClient().Get(ctx, key); err == nil && len(resp.Kvs) > 0 && string(resp.Kvs[0].Value) == "1234567" {
+			ls.GetEtcdClient().Delete(ctx, key)
+		}
+		cancel()
+	}
+	return x.waitLeaders(pds, 30*time.Second)
 }
 
 // setGap sets max-gap-reset-ts on every member (0 = the default of 24h).
@@ -620,9 +773,28 @@ func runCross(c XCase) (vkit.Info, error) {
 	id := 0
 	resigned := false
 	jumps := 0
+	lostPending := false
 	defer x.setGap(0)
+	// the cluster is in an unknown state: do not reuse it
+	unusable := func() {
+		xmu.Lock()
+		x.destroy()
+		xcur = nil
+		xmu.Unlock()
+	}
+	defer func() {
+		if lostPending && xcur == x && !x.restore(dcs, c.PDs) {
+			unusable()
+		}
+	}()
 	for si, st := range c.Steps {
 		if si == c.ResignAt && len(c.PDs) >= 2 {
+			if lostPending && !x.restore(dcs, c.PDs) {
+				unusable()
+				info.Inconclusive = true
+				return info, nil
+			}
+			lostPending = false
 			old := x.cluster.GetLeader()
 			okr := within(30*time.Second, func() { x.cluster.ResignLeader() })
 			if !okr || !x.waitLeaders(c.PDs, 60*time.Second) {
@@ -639,6 +811,22 @@ func runCross(c XCase) (vkit.Info, error) {
 		}
 		if st.Jump != nil {
 			jumps += x.jump(dcs, st.Jump)
+			continue
+		}
+		if st.Lose != nil {
+			if x.lose(dcs, st.Lose) {
+				info.Class("dc-loses-allocator-leader-" + st.Lose.Kind)
+				lostPending = lostPending || st.Lose.Kind != "gather"
+			}
+			continue
+		}
+		if st.Restore {
+			if !x.restore(dcs, c.PDs) {
+				unusable()
+				info.Inconclusive = true
+				return info, nil
+			}
+			lostPending = false
 			continue
 		}
 		var wg sync.WaitGroup
